@@ -9,8 +9,57 @@ package core
 
 import (
 	"encoding/json"
+	"reflect"
 	"sort"
 )
+
+// verifExtras renders every plain-valued field of a state struct that the
+// explicit dump below does not know about (bool, numbers, strings, and the
+// sorted keys of string-keyed maps).  A change to rulio that adds hidden state
+// (a cached flag, a scratch set) thereby becomes part of the canonical state
+// key without anybody having to teach the dump about it; otherwise two states
+// that differ only in such a field would be merged although their futures
+// differ.
+func verifExtras(ptr interface{}, known map[string]bool) map[string]interface{} {
+	out := map[string]interface{}{}
+	v := reflect.ValueOf(ptr)
+	if v.Kind() != reflect.Ptr || v.IsNil() || v.Elem().Kind() != reflect.Struct {
+		return out
+	}
+	v = v.Elem()
+	t := v.Type()
+	for i := 0; i < t.NumField(); i++ {
+		f := t.Field(i)
+		if known[f.Name] {
+			continue
+		}
+		fv := v.Field(i)
+		switch fv.Kind() {
+		case reflect.Bool:
+			out[f.Name] = fv.Bool()
+		case reflect.Int, reflect.Int8, reflect.Int16, reflect.Int32, reflect.Int64:
+			out[f.Name] = fv.Int()
+		case reflect.Uint, reflect.Uint8, reflect.Uint16, reflect.Uint32, reflect.Uint64:
+			out[f.Name] = fv.Uint()
+		case reflect.Float32, reflect.Float64:
+			out[f.Name] = fv.Float()
+		case reflect.String:
+			out[f.Name] = fv.String()
+		case reflect.Map:
+			if fv.Type().Key().Kind() == reflect.String {
+				ks := make([]string, 0, fv.Len())
+				for _, k := range fv.MapKeys() {
+					ks = append(ks, k.String())
+				}
+				sort.Strings(ks)
+				out[f.Name] = ks
+			}
+		case reflect.Slice:
+			out[f.Name] = fv.Len()
+		}
+	}
+	return out
+}
 
 // VerifState returns the location's State.
 func (loc *Location) VerifState() State { return loc.state }
@@ -87,6 +136,9 @@ func VerifDump(s State) map[string]interface{} {
 		sort.Strings(cr)
 		out["cached"] = cr
 		out["loaded"] = st.Loaded
+		if x := verifExtras(st, map[string]bool{"Name": true, "IdToFact": true, "FactIndex": true, "RuleIndex": true, "Loaded": true, "cachedRules": true}); len(x) > 0 {
+			out["extra"] = x
+		}
 	case *LinearState:
 		out["kind"] = "linear"
 		facts := map[string]interface{}{}
@@ -100,6 +152,9 @@ func VerifDump(s State) map[string]interface{} {
 		}
 		sort.Strings(cr)
 		out["cached"] = cr
+		if x := verifExtras(st, map[string]bool{"Name": true, "Facts": true, "cachedRules": true}); len(x) > 0 {
+			out["extra"] = x
+		}
 	default:
 		out["kind"] = "unknown"
 	}
